@@ -16,11 +16,11 @@ EX = "exploration"
 
 # id: (level, technique, level text, level note, design ref, engine)
 CHECKS = {
- "C01": (MC, "explicit-state BFS over (real parser control state x RFC 8259 PDA), all 256 bytes per state",
+ "C01": (MC, "explicit-state BFS over (real parser control state x RFC 8259 PDA), all 256 bytes per state; deviation-bounded reader answers (io.EOF with the last chunk, one empty read), bytes behind the input slice, byte-order-mark family",
          "Every reachable product state of each strict front-end up to nesting D (3 quick / 5 thorough) is visited and every one of the 256 byte values, plus end of input, is executed on the real code from it and compared with a reference pushdown recogniser; the []byte entry point is run on every explored input. Within the bound this is a complete decision of the accept set, which no finite list of documents gives.",
          "Trusted: the jsonref recogniser (cross-checked against encoding/json.Valid on every explored input), the abstract state key (mode, nextMode, literal index, container stack shape, number threshold flags), nesting bound D.",
          "DESIGN.md §2.1, §3 C01", "bytemc"),
- "C02": (EX, "bounded-exhaustive enumeration of number literals / string escape sequences / small trees through six front-end paths against a big.Rat + encoding/json reference",
+ "C02": (EX, "bounded-exhaustive enumeration of number literals / string escape sequences / small trees through ten front-end paths (parsers and tokenizers of oj, gen, sen; []byte and 1-byte reader) against a big.Rat + encoding/json reference",
          "Every literal of the number family (sign x integer digit patterns of length 1..21 incl. the int64/uint64 boundaries x fraction with 0..21 leading zeros x exponent forms), every string of <=2 (quick) / <=3 (thorough) escape items (all 65536 single \\uXXXX escapes, surrogate pairs, raw invalid bytes) as value and key, and every tree up to 5 nodes is parsed by oj.Parse, 1-byte ParseReader, oj.Tokenize, gen.Parser (both) and sen.Parse and compared with the reference value. The space is a matrix of code paths (threshold digit counts, escape cells), filled completely up to the bound. A string-pair family (two strings per document in five placements, the second over every two-item sequence) checks that nothing one string leaves behind in a front-end shows in the next.",
          "Trusted: strconv.ParseFloat, math/big, encoding/json (cross-checked); valref decoder for non-UTF-8 inputs. Lone surrogates and raw invalid bytes accept several readings.",
          "DESIGN.md §3 C02", "core"),
@@ -53,7 +53,7 @@ CHECKS = {
          "Trusted: encref (cross-checked against encoding/json on every case); readings weakened where options.go is silent (see checks/c15/TRIAGE.md).",
          "DESIGN.md §3 C15", "core"),
  "C16": (MC, "explicit-state BFS over recomposer registry states (orders of target types) with each step compared against a fresh recomposer; bounded-exhaustive round trips over StructOf and named types",
-         "History leg: state = registry content of one recomposer (private and alt.DefaultRecomposer), alphabet = recompose into each of 7 target type classes (same-named types of two packages, anonymous structs, embedding/field-of types, custom function); BFS over all orders up to length 3/4 with deduplication; every step's output must equal the output on a fresh recomposer. Value leg: Recompose(Decompose(v)), Unmarshal(Marshal(v)), sen round trip for every enumerated type and value.",
+         "History leg: state = registry content of one recomposer (private and alt.DefaultRecomposer), alphabet = recompose into each of 9 target type classes (same-named types of two packages, anonymous structs, same-named types declared inside two functions, embedding/field-of types, custom function); BFS over all orders up to length 3/4 with deduplication; every step's output must equal the output on a fresh recomposer. Value leg: Recompose(Decompose(v)), Unmarshal(Marshal(v)), sen round trip for every enumerated type and value.",
          "Trusted: reflect.DeepEqual modulo nil/empty; registry snapshot via reflection; process-wide state also contaminates the fresh run (stated).",
          "DESIGN.md §3 C16", "core"),
  "C17": (EX, "bounded-exhaustive enumeration of documents x target sets x entry points x chunkings against parse + pathref (outermost, document order)",
@@ -73,7 +73,7 @@ CHECKS = {
          "Trusted: asmref (doc.go is the specification; ambiguous wording yields several acceptable outcomes); masked 'runtime error:' results accepted.",
          "DESIGN.md §3 C20", "core"),
 
- "C03": (MC, "explicit-state BFS + chunk lemma: every (reachable state, short chunk) pair fed at once vs byte-wise with concrete snapshot comparison; joint product agreement of all front-ends; token x split enumeration",
+ "C03": (MC, "explicit-state BFS + chunk lemma: every (reachable state, short chunk) pair fed at once vs byte-wise with concrete snapshot comparison; joint product agreement of all front-ends; token x split enumeration under every reader answer; every exported entry point x every kind of optional argument",
          "Leg A decides chunk-independence by induction: for every reachable abstract state of each machine (single and multi-document) and every chunk of length 2..L over one representative per byte class (recomputed from the current tables), feeding the chunk at once and byte by byte must reach the same concrete state and the same final outcome. Leg B runs every input of the oj.Parser product search through all front-ends (whole and byte-wise, callback and channel) and requires equal trees or an error everywhere. Leg C splits long tokens at every offset and across the 4096-byte refill; leg D compares sen.Parse / ParseReader / Tokenize on every short SEN text.",
          "Trusted: abstract key and snapshot masking (scratch fields), byte-class partition, nesting and chunk-length bounds. SEN-only syntax is a known broken area (wildcard findings); SEN on strict JSON input and the SEN token list of leg C remain sharp.",
          "DESIGN.md §2.2, §3 C03", "bytemc"),
@@ -85,15 +85,15 @@ CHECKS = {
          "Leg A visits every reachable abstract state of each of the six byte state machines (single- and multi-document) up to the nesting bound and executes all 256 byte values, end of input and one injected reader fault per chunk boundary through the reader and []byte entry points, under recover. Legs B-D enumerate every token sequence up to the length bound into the JSONPath/script parsers, every asm function x arity x argument-kind vector, and every small tree into Unmarshal/Recompose for 26 target types. A panic anywhere is a violation with the input as witness; hangs are caught by the worker watchdog.",
          "Trusted: abstract state key (merged states behave alike for control flow), the token / argument / target alphabets; DESIGN.md §2.5 reading of 'runtime fault' (masked 'runtime error:' error results are counted, not violations).",
          "DESIGN.md §3 C06", "bytemc"),
- "C07": (MC, "exhaustive depth-bounded search over call histories of one long-lived instance, every call re-executed on a fresh instance; culprit field localised by single-field transplant",
+ "C07": (MC, "exhaustive depth-bounded search over call histories of one long-lived instance, every call re-executed on a fresh instance (two initial states for the parsers; returned values and returned errors held on to); culprit field localised by single-field transplant",
          "The reused instance (9 instance kinds + the pooled package-level functions of oj and sen) is the state machine and API calls are the alphabet (valid documents, documents aborting in every family of modes, failing readers/writers, option and callback variants, Reuse/OnlyOne/Options changes). Every sequence up to the depth bound is executed; the last call's result (value, error text with line:column, bytes written) must equal the result on a fresh instance with the same exported configuration; earlier returned values are re-inspected after every call and input buffers are overwritten after use. A difference is attributed to the private field whose transplant into a fresh instance reproduces it.",
          "Trusted: the call alphabets; exported configuration fields count as arguments; documented reused buffers (MustJSON, MustSEN, sen.Bytes, pretty Encode) and Reuse maps are exempt; sync.Pool is emptied by two GC cycles.",
          "DESIGN.md §3 C07", "core"),
- "C08": (MC, "stateless schedule enumeration (DFS, iterative preemption bounding) of the real code under a cooperative scheduler hooked into sync.Pool / sync.Mutex via a build overlay; separate free-running -race pass",
+ "C08": (MC, "stateless schedule enumeration (DFS, iterative preemption bounding) of the real code under a cooperative scheduler hooked into sync.Pool / sync.Mutex via a build overlay (the pool shim also reports an object put back twice); separate free-running -race pass that keeps seeing new struct types",
          "For every harness (2 threads x 1-2 calls, 3 threads x 1 call; calls drawn from 7 groups forced to collide on one pool, plan cache or shared jp expression) all schedules with at most P preemptions are executed; scheduling points are Pool.Get/Put, Mutex.Lock/Unlock and the boundary after each call. Every call must return what it returns alone, every returned buffer must still hold its text when the caller looks again after other threads ran, shared expressions / recomposers must be bit-identical afterwards, no deadlock. Data races between scheduling points are left to the race-detector pass over the same call bodies (labelled as such in the evidence). Shared objects are also snapshotted as constructed and must not change when a call is made for the first time.",
          "Trusted: sync.Pool modelled as LIFO+New; atomicity between scheduling points (complemented by -race pass); harness alphabets; -race pass built with checkptr disabled because ojg's unsafe field arithmetic trips it.",
          "DESIGN.md §3 C08", "sched"),
- "C09": (MC, "explicit-state BFS for the state set, then exhaustive whitespace-insertion x offending-byte x chunking enumeration per state",
+ "C09": (MC, "explicit-state BFS for the state set, then exhaustive whitespace-insertion x offending-byte x chunking x reader-answer enumeration per state, []byte also with a continuation stored behind the slice",
          "For the witness of every reachable product state, every placement of whitespace/newline insertions at inter-token positions, every offending byte the reference rejects (and end of input when incomplete), two tails and every chunking (whole, one chunk, byte-wise, every 2-split, split after each newline) is executed on all strict front-ends and the reported line:column compared with the byte-exact expectation computed from the input.",
          "Trusted: jsonref decides the first offending byte; BOM-less inputs; insertion count bound (1 quick, 2 thorough).",
          "DESIGN.md §3 C09", "bytemc"),
